@@ -269,8 +269,9 @@ class AList:
     items: list
     uid: int = field(default_factory=new_uid)
     shared: bool = False
-    kind: str = "list"  # list | deque
+    kind: str = "list"  # list | deque | bytearray
     maxlen: int | None = None
+    elem: str | None = None  # message type of a protobuf repeated composite field
 
     def __repr__(self) -> str:
         return f"{self.kind}{self.items!r}"
